@@ -6,16 +6,21 @@ import uuid as uuidlib
 
 from hypothesis import strategies as st
 
-TAG_POOL = [["species", "a"], ["species", "b"], ["species", "c"], ["call", "a"], ["call", "x"], ["k", ""]]
+TAG_POOL = [["species", "a"], ["species", "b"], ["species", "c"], ["call", "a"], ["call", "x"], ["k", ""], ["species", "Pin\u0303on jay"], ["species", "Pi\u00f1on jay"], ["species", "A"], ["Species", "a"]]
 OOV = [["species", "zz"], ["other", "a"]]
 
 
 @st.composite
-def scores_for(draw, nvocab, sum_le_one=True):
+def scores_for(draw, nvocab, sum_le_one=True, prefer=()):
     """scores on the k/64 grid for each vocabulary index (possibly absent), summing to <= 1 when requested"""
     budget = 64
     out = []
-    idx = draw(st.lists(st.integers(0, nvocab - 1), min_size=0, max_size=nvocab, unique=True)) if nvocab else []
+    idx = draw(st.lists(st.one_of(st.integers(0, nvocab - 1), st.integers(max(0, nvocab - 60), nvocab - 1)), min_size=0, max_size=min(nvocab, 8), unique=True)) if nvocab else []
+    prefer = [i for i in prefer if 0 <= i < nvocab]
+    if prefer and draw(st.integers(0, 2)) > 0:
+        # informative predictions: the true class of an annotation of the same clip usually gets a score
+        p = prefer[draw(st.integers(0, len(prefer) - 1))]
+        idx = [p] + [i for i in idx if i != p]
     for i in idx:
         if sum_le_one:
             k = draw(st.integers(0, budget))
@@ -42,9 +47,14 @@ def geometry(draw, allow_none=True, kinds=("TimeInterval", "BoundingBox")):
 
 
 @st.composite
-def detection_inputs(draw, min_vocab=2, max_vocab=5, sum_le_one=True, same_events=False, allow_geometryless=True, clip_tags=False, multilabel=False, max_clips=4):
-    nv = draw(st.integers(min_vocab, max_vocab))
-    vocab = draw(st.permutations(TAG_POOL))[:nv]
+def detection_inputs(draw, min_vocab=2, max_vocab=5, sum_le_one=True, same_events=False, allow_geometryless=True, clip_tags=False, multilabel=False, max_clips=4, big_vocab=False):
+    if big_vocab:
+        # a vocabulary of several hundred tags (class indices beyond 255 / 65535 are legitimate)
+        nv = draw(st.sampled_from([257, 300, 513]))
+        vocab = [["species", f"sp{i:04d}"] for i in range(nv)]
+    else:
+        nv = draw(st.integers(min_vocab, max_vocab))
+        vocab = draw(st.permutations(TAG_POOL))[:nv]
     nclips = draw(st.integers(1, max_clips))
     side = [draw(st.sampled_from(["both", "both", "both", "both", "both", "ann", "pred"])) for _ in range(nclips)]
     if "both" not in side:
@@ -53,10 +63,10 @@ def detection_inputs(draw, min_vocab=2, max_vocab=5, sum_le_one=True, same_event
     for s in side:
         def true_tags():
             n = draw(st.sampled_from([0, 1, 1, 1, 2]))
-            return [draw(st.one_of(st.integers(0, nv - 1), st.sampled_from([-1, -2, -3, -4, -5]))) for _ in range(n)]  # negative = out of vocabulary
+            return [draw(st.one_of(st.integers(0, nv - 1), st.integers(max(0, nv - 60), nv - 1), st.sampled_from([-1, -2, -3, -4, -5]))) for _ in range(n)]  # negative = out of vocabulary
 
-        def pred_tags():
-            sc = draw(scores_for(nv, sum_le_one=sum_le_one))
+        def pred_tags(prefer=()):
+            sc = draw(scores_for(nv, sum_le_one=sum_le_one, prefer=prefer))
             if draw(st.integers(0, 3)) == 0:
                 sc.append([draw(st.sampled_from([-1, -3, -4, -5])), draw(st.integers(0, 64)) / 64])  # out-of-vocabulary predicted tag, arbitrary score
             return sc
@@ -67,19 +77,19 @@ def detection_inputs(draw, min_vocab=2, max_vocab=5, sum_le_one=True, same_event
             for _ in range(n):
                 g = draw(geometry(allow_none=allow_geometryless))
                 anns.append({"geometry": g, "tags": true_tags()})
-                preds.append({"geometry": g, "tags": pred_tags(), "same_as": len(anns) - 1, "conf": draw(st.integers(0, 20)) / 20})
+                preds.append({"geometry": g, "tags": pred_tags(anns[-1]["tags"]), "same_as": len(anns) - 1, "conf": draw(st.integers(0, 20)) / 20})
         else:
             for _ in range(draw(st.integers(0, 4))):
                 anns.append({"geometry": draw(geometry(allow_none=allow_geometryless)), "tags": true_tags()})
             for _ in range(draw(st.integers(0, 4))):
-                preds.append({"geometry": draw(geometry(allow_none=allow_geometryless)), "tags": pred_tags(), "conf": draw(st.integers(0, 20)) / 20})
-        c = {"side": s, "anns": anns, "preds": preds}
+                preds.append({"geometry": draw(geometry(allow_none=allow_geometryless)), "tags": pred_tags([t for a in anns for t in a["tags"]]), "conf": draw(st.integers(0, 20)) / 20})
+        c = {"side": s, "anns": anns, "preds": preds, "separate_clip": draw(st.sampled_from([None, None, "equal_copy", "other_content"]))}
         if clip_tags:
             if multilabel:
                 c["true_tags"] = draw(st.lists(st.one_of(st.integers(0, nv - 1), st.sampled_from([-1])), min_size=0, max_size=nv, unique=True))
             else:
                 c["true_tags"] = true_tags()
-            c["pred_tags"] = pred_tags()
+            c["pred_tags"] = pred_tags(c["true_tags"])
         clips.append(c)
     return {"vocab": [list(v) for v in vocab], "clips": clips, "order": draw(st.permutations(list(range(nclips))))}
 
@@ -150,8 +160,15 @@ def build(spec, order=None):
             preds.append(pred)
         if c["side"] in ("both", "ann"):
             cas.append(data.ClipAnnotation(uuid=_uid(500000 + ci), clip=clip, sound_events=anns, tags=[tag_of(i) for i in c.get("true_tags", [])], created_on="2020-01-01T00:00:00"))
+        pclip = clip
+        if c.get("separate_clip") == "equal_copy":
+            pclip = data.Clip(uuid=clip.uuid, recording=rec, start_time=0.0, end_time=30.0)
+        elif c.get("separate_clip") == "other_content":
+            # same clip (same uuid) as seen by another tool: the recording carries an extra tag, the clip a feature
+            rec2 = rec.model_copy(update={"tags": [tag(["site", "x"])], "path": "other/dir/r.wav"})
+            pclip = data.Clip(uuid=clip.uuid, recording=rec2, start_time=0.0, end_time=30.0, features=[data.Feature(term=data.term_from_key("snr"), value=3.0)])
         if c["side"] in ("both", "pred"):
-            cps.append(data.ClipPrediction(uuid=_uid(600000 + ci), clip=clip, sound_events=preds, tags=[data.PredictedTag(tag=tag_of(i), score=s) for i, s in c.get("pred_tags", [])]))
+            cps.append(data.ClipPrediction(uuid=_uid(600000 + ci), clip=pclip, sound_events=preds, tags=[data.PredictedTag(tag=tag_of(i), score=s) for i, s in c.get("pred_tags", [])]))
     return cps, cas, vocab, index
 
 
